@@ -1,17 +1,23 @@
 #!/bin/bash
-# usage: tools/mut.sh <ID> <file-in-repo> <python-regex> <replacement> [tier]  — applies a one-off mutation to /repo, runs the check, reverts.
+# usage: tools/mut.sh <ID> <file-in-repo> <python-regex> <replacement> [tier]
+# Applies a one-off mutation in a scratch worktree of /repo (never in /repo), runs the registered check
+# against it (VERIF_REPO), removes the worktree.  With MUT_TEST=<pkg> also runs `go test <pkg>` there.
 ID=$1; F=$2; PAT=$3; REP=$4; TIER=${5:-quick}
-cd /repo && git diff --quiet || { echo "repo dirty"; exit 9; }
-python3 - "$F" "$PAT" "$REP" <<'PY'
+export GOFLAGS=-mod=mod GOPROXY=off GOSUMDB=off GOTOOLCHAIN=local
+WT=/tmp/vmut-$$
+git -C /repo worktree add -q --detach $WT HEAD || exit 9
+trap 'git -C /repo worktree remove --force $WT; rm -rf /verif/.work/*/mut_tmp_vmut-*' EXIT
+python3 - "$WT/$F" "$PAT" "$REP" <<'PY'
 import re,sys
 f,p,r=sys.argv[1:4]
-s=open('/repo/'+f).read()
+s=open(f).read()
 n=len(re.findall(p,s,flags=re.S))
 if n!=1: print("pattern matches",n,"times"); sys.exit(3)
-open('/repo/'+f,'w').write(re.sub(p,r,s,count=1,flags=re.S))
+open(f,'w').write(re.sub(p,r,s,count=1,flags=re.S))
 PY
 [ $? -eq 0 ] || exit 3
-git -C /repo diff --stat | tail -1
-cd /verif && ./run.sh $ID $TIER | tail -6; rc=${PIPESTATUS[0]}
-git -C /repo checkout -- . 
+git -C $WT diff --stat | tail -1
+if [ -n "${MUT_TEST:-}" ]; then (cd $WT && go test -count=1 -vet=off $MUT_TEST 2>&1 | tail -3); fi
+cd /verif && VERIF_REPO=$WT ./run.sh $ID $TIER | grep -v '^badger' | tail -6; rc=${PIPESTATUS[0]}
+rm -f /verif/bin/*-mut_tmp_vmut-*
 echo "mutant exit=$rc"
